@@ -145,7 +145,8 @@ StartTake(t, o) ==
   /\ held' = [held EXCEPT ![t] = @ \ {o}] /\ SetRes(t, "none")
   /\ IF poolGone THEN ext' = ext \cup {o} /\ UNCHANGED <<pc, obj>>
      ELSE obj' = [obj EXCEPT ![t] = o] /\ Goto(t, "tk") /\ UNCHANGED ext
-  /\ UNCHANGED <<sem, ssem, queue, size, avail, mode, rm, dead, cdrop, closeRet, poolGone, late>>
+  /\ rm' = [rm EXCEPT ![t] = FALSE]
+  /\ UNCHANGED <<sem, ssem, queue, size, avail, mode, dead, cdrop, closeRet, poolGone, late>>
 
 Tk(t) ==
   /\ pc[t] = "tk"
@@ -153,7 +154,7 @@ Tk(t) ==
   /\ ext' = ext \cup {obj[t]} /\ obj' = [obj EXCEPT ![t] = NoObj]
   /\ Goto(t, "idle") /\ SetRes(t, IF rm[t] THEN "ok" ELSE "none")
   /\ rm' = [rm EXCEPT ![t] = FALSE]
-  /\ UNCHANGED <<sem, queue, avail, mode, rm, held, dead, cdrop, budget, closeRet, poolGone, late>>
+  /\ UNCHANGED <<sem, queue, avail, mode, held, dead, cdrop, budget, closeRet, poolGone, late>>
 
 ----------------------------------------------------------------------------
 (* returning an object (Object::drop)                                      *)
@@ -307,7 +308,8 @@ Inv_C05_status == (Quiescent /\ ~poolGone) =>
   /\ size = Len(queue) + Cardinality(Out)
   /\ (IF avail > 0 THEN avail ELSE 0) = Len(queue)
   /\ (IF avail < 0 THEN 0 - avail ELSE 0) = Cardinality(Blocked)
-Act_C05_tryadd == [][\A t \in Tasks : (pc[t] = "a_acq" /\ pc'[t] = "idle" /\ res'[t] = "timeout") => ssem.p = 0]_vars
+Step_C05_tryadd == \A t \in Tasks : (pc[t] = "a_acq" /\ pc'[t] = "idle" /\ res'[t] = "timeout") => ssem.p = 0
+Act_C05_tryadd == [][Step_C05_tryadd]_vars
 
 \* C12
 Inv_C12_nounderflow == size >= 0
@@ -316,5 +318,6 @@ Inv_C12_final == closeRet =>
   /\ (Quiescent => queue = <<>>)
   /\ Blocked = {} /\ BlockedAdd = {}
 Inv_C12_late == \A t \in Tasks : (late[t] /\ pc[t] = "idle") => res[t] \in {"closed", "cancelled", "none", "no_runtime"}
-Act_C12_closed == [][(sem.c => sem'.c) /\ (ssem.c => ssem'.c)]_vars
+Step_C12_closed == (sem.c => sem'.c) /\ (ssem.c => ssem'.c)
+Act_C12_closed == [][Step_C12_closed]_vars
 =============================================================================
